@@ -55,21 +55,22 @@ type agentState struct {
 }
 
 type world struct {
-	r        *rig.Rig
-	ts       *server.Teamserver
-	addr     string
-	http     *handlers.HTTP
-	mons     []*opclient.Client
-	ags      []*agentState
-	m        *model
-	dirty    bool // a goroutine of this teamserver is known to be blocked: never reuse
-	nc       int  // newcomer name counter
-	agSeq    uint32
-	scen     int     // scenarios run in this world
-	calib    []int64 // cumulative server->client byte offsets of TLS record ends of a quiescent login
-	tokN     int
-	id       int
-	bornToks []string
+	r            *rig.Rig
+	ts           *server.Teamserver
+	addr         string
+	http         *handlers.HTTP
+	mons         []*opclient.Client
+	ags          []*agentState
+	m            *model
+	dirty        bool // a goroutine of this teamserver is known to be blocked: never reuse
+	nc           int  // newcomer name counter
+	agSeq        uint32
+	scen         int     // scenarios run in this world
+	calib        []int64 // cumulative server->client byte offsets of TLS record ends of a quiescent login
+	tokN         int
+	id           int
+	bornToks     []string
+	removeFailed int
 }
 
 var worldSeq atomic.Int64
